@@ -788,7 +788,7 @@ class SamplingMethod(DirectMethod):
         # (the comparison is constant): refuse the problem when they do not hold instead of dropping them silently
         try:
             lo, hi = float(getattr(self.time_grid, 'min', 0)), float(getattr(self.time_grid, 'max', inf))
-            if self.time_grid.localize_T or self.time_grid.localize_t0 or isinstance(self.time_grid, FreeGrid):
+            if isinstance(self.time_grid, FreeGrid):
                 return # the interval lengths are decision variables: handled by the NLP constraints
             # the interval lengths do not depend on t0
             cg = self.time_grid(0, ca.evalf(self.T), self.N)
